@@ -23,19 +23,13 @@ RULE = ("scenarios = content operations followed by saves, enumerated by TLC (BF
         "k (RLIMIT_FSIZE = k, every k in 0..N+2 for small packages, evenly spaced + edges + buffer boundaries for large "
         "ones) and once more without a limit; every call is one judged observation")
 
-SMALL = ["table", "header", "footnote", "para", "image", "list"]
-LARGE = ["longtext", "midimage", "bigimage"]
-ALLDOC = ["para", "heading", "longtext", "table", "image", "midimage", "header", "footer", "footnote", "list", "margins"]
-MD = ["mdpara", "mdheading", "mdlist", "mdtable", "mdlong"]
-TARGETS = ["newdir", "existing", "device", "rodir", "rofile", "parentfile", "isdir"]
+GROUPS = ["sweep-all", "sweep-large", "targets", "md-targets", "md-sweep", "resave"]
 
 
-def gencfg(ctx, name, doc=(), md=(), vias=("Save",), targets=("newdir",), plans=("none",), points=0, edge=64,
-           maxdoc=1, maxsaves=1):
+def gencfg(ctx, name, groups):
     return ctx.cfg(name, "SpecGen", {
         "MaxEnt": 1, "MaxDat": 1, "DirSizes": {1}, "BufSizes": {2}, "MCVariants": {"intended"}, "MCTargets": {"newdir"},
-        "DocOps": set(doc), "MdOps": set(md), "Vias": set(vias), "GenTargets": set(targets), "Plans": set(plans),
-        "SweepPoints": points, "SweepEdge": edge, "MaxDoc": maxdoc, "MaxSaves": maxsaves}, invariants=["Emit"])
+        "GroupNames": set(groups)}, invariants=["Emit"])
 
 
 def expect_counterexample(ctx):
@@ -52,8 +46,15 @@ def expect_counterexample(ctx):
             os.remove(os.path.join(ctx.specdir, f))
 
 
-def judge(ctx, cases, tag, shards=None):
-    obs = ctx.run_exec("saveio", cases, tag, shards=shards)
+def count_groups(cases):
+    out = {}
+    for c in cases:
+        g = c["steps"][0].get("g", "?")
+        out[g] = out.get(g, 0) + 1
+    return out
+
+
+def judge_obs(ctx, obs, tag):
     calls, skipped, byclass = 0, {}, {}
     with open(obs) as f:
         for line in f:
@@ -87,38 +88,29 @@ def pipeline(ctx, replay_case=None):
                            "(closeFault) but not injected")
     ctx.assumptions.append("phase labels in signatures assume archive/zip buffers 4096 bytes and compress/flate holds back at most ~64 KiB")
     if replay_case is not None:
-        judge(ctx, [replay_case], "replay", shards=1)
+        judge_obs(ctx, ctx.run_exec("saveio", [replay_case], "replay", shards=1), "replay")
         return ctx.finish(LEVEL, RULE)
 
-    # (A) every offset of small packages
-    a = ctx.tlc_gen("SaveIO_MC.tla", gencfg(ctx, "gen_a.cfg", doc=SMALL[:1] if q else SMALL, targets=["newdir", "existing"],
-                                            plans=["sweep"], points=0, maxdoc=1), "sweep-all")
-    judge(ctx, a, "sweep-all", shards=len(a))
-    # (B) large packages (faults surface while entries are written as well as at close)
-    b = ctx.tlc_gen("SaveIO_MC.tla", gencfg(ctx, "gen_b.cfg", doc=LARGE, targets=["newdir"] if q else ["newdir", "existing"],
-                                            plans=["sweep"], points=120 if q else 1500, edge=64 if q else 300,
-                                            maxdoc=1 if q else 2), "sweep-large")
-    judge(ctx, b, "sweep-large", shards=min(len(b), vlib.NCPU))
-    # (C) every target class, many documents, no limit
-    c = ctx.tlc_gen("SaveIO_MC.tla", gencfg(ctx, "gen_c.cfg", doc=ALLDOC, targets=TARGETS, plans=["none"],
-                                            maxdoc=1 if q else 2), "targets")
-    judge(ctx, c, "targets")
-    # (D) the Markdown entry points
-    d = ctx.tlc_gen("SaveIO_MC.tla", gencfg(ctx, "gen_d.cfg", md=MD, vias=["ConvertFile", "BatchConvert"], targets=TARGETS,
-                                            plans=["none"], maxdoc=1 if q else 2), "md-targets")
-    judge(ctx, d, "md-targets")
-    d2 = ctx.tlc_gen("SaveIO_MC.tla", gencfg(ctx, "gen_d2.cfg", md=["mdtable", "mdlong"], vias=["ConvertFile"] if q else ["ConvertFile", "BatchConvert"],
-                                             targets=["newdir"], plans=["sweep"], points=150 if q else 0, maxdoc=1), "md-sweep")
-    judge(ctx, d2, "md-sweep", shards=len(d2))
-    # (E) save - edit - save on the same document
-    e = ctx.tlc_gen("SaveIO_MC.tla", gencfg(ctx, "gen_e.cfg", doc=["para", "image"], targets=["newdir", "existing", "device"],
-                                            plans=["none"], maxdoc=2, maxsaves=2), "resave")
-    judge(ctx, e, "resave")
-    # (F) seeded random longer documents, swept
-    f = ctx.tlc_gen("SaveIO_MC.tla", gencfg(ctx, "gen_f.cfg", doc=ALLDOC, targets=["newdir", "existing", "device"],
-                                            plans=["sweep"], points=60 if q else 400, edge=32 if q else 128, maxdoc=8, maxsaves=2),
-                    "random", mode="sim", num=3 if q else 12, depth=11, limit=12 if q else 80)
-    judge(ctx, f, "random", shards=min(len(f), vlib.NCPU))
+    pre = "q-" if q else "t-"
+    # every scenario of the tier's groups (SaveIO_MC.tla, AllGroups), enumerated breadth-first ...
+    cases = ctx.tlc_gen("SaveIO_MC.tla", gencfg(ctx, "gen_bfs.cfg", [pre + g for g in GROUPS]), "bfs")
+    # ... plus seeded random longer documents, swept
+    rnd = ctx.tlc_gen("SaveIO_MC.tla", gencfg(ctx, "gen_sim.cfg", [pre + "random"]), "sim", mode="sim",
+                      num=3 if q else 12, depth=12, limit=12 if q else 80)
+    ctx.extra_cov["scenario_groups"] = count_groups(cases + rnd)
+    # heavy cases (sweeps) first and one per shard so that they run in parallel
+    sweeps = [c for c in cases + rnd if any(s.get("plan") == "sweep" for s in c["steps"])]
+    light = [c for c in cases if c not in sweeps]
+    ctx.cases_by_tag["all"] = {c["id"]: c for c in cases + rnd}
+    obs1 = ctx.run_exec("saveio", sweeps, "sweeps", shards=min(len(sweeps), vlib.NCPU))
+    obs2 = ctx.run_exec("saveio", light, "light")
+    obs = os.path.join(ctx.work, "all.obs.ndjson")
+    with open(obs, "w") as out:
+        for o in (obs1, obs2):
+            with open(o) as f:
+                for line in f:
+                    out.write(line)
+    judge_obs(ctx, obs, "all")
     ctx.exhaustive = True
     if ctx.extra_cov.get("save_calls", {}).get("skipped"):
         ctx.assumptions.append("running with privileges that override file permissions: target classes rodir/rofile "
